@@ -53,14 +53,17 @@ theorem default_sr_shifts (sh rd : Action) (hs : sh.actionType = SHIFT) (hr : rd
   simp only [SHIFT, REDUCE] at hs hr
   constructor <;> simp [useDefaultResolveConflict, hs, hr]
 
-/-- The property: a reduce/reduce conflict reduces by the rule that appears first
-    (actionIndex = -(rule index)).  FALSE for the code as it stands: -/
-def RRFirst : Prop := ∀ (a b : Action), a.actionType = REDUCE → b.actionType = REDUCE →
-    a.actionIndex > b.actionIndex → useDefaultResolveConflict a b = a
+/-- A reduce/reduce conflict without applicable precedence reduces by the rule that appears first
+    in the file (`actionIndex = -(rule number)`, so the earlier rule is the larger index), whatever
+    the order in which the two candidates are presented. -/
+theorem rr_first (a b : Action) (ha : a.actionType = REDUCE) (hb : b.actionType = REDUCE)
+    (hlt : a.actionIndex > b.actionIndex) :
+    useDefaultResolveConflict a b = a ∧ useDefaultResolveConflict b a = a := by
+  simp only [REDUCE] at ha hb
+  constructor <;> (unfold useDefaultResolveConflict; grind)
 
-theorem rr_counterexample : ¬ RRFirst := by
-  intro h
-  have := h ⟨1, -3, 2, -1⟩ ⟨1, -5, 2, -1⟩ rfl rfl (by decide)
-  simp [useDefaultResolveConflict] at this
+/-- non-vacuity: concrete actions meeting the hypotheses -/
+example : SR ⟨0, 7, 0, 2⟩ ⟨1, -3, 0, 3⟩ := ⟨rfl, rfl, by decide, by decide⟩
+example : useDefaultResolveConflict ⟨1, -3, 2, -1⟩ ⟨1, -5, 2, -1⟩ = ⟨1, -3, 2, -1⟩ := by decide
 
 end C04
